@@ -128,6 +128,138 @@ fn main() {{}}
     return gen, [Obl("C04.loader.record", ["C04", "C18"], fn="MScriptFile::get_functions[record loop body]", desc="get_functions, per record: label / instruction (with and without arguments) / end each have exactly their effect on the loader state; the buffer is empty afterwards")], log
 
 
+
+LOOP_SPEC = r"""
+// ---- the whole loader: ghost file contents, std's BufRead::read_until
+#[verifier::external_body] pub struct FileV { x: usize }
+pub uninterp spec fn file_bytes(f: FileV) -> Seq<u8>;
+pub uninterp spec fn io_error(f: FileV) -> bool;                    // opening the file, or some read of it, fails
+#[verifier::external_body] pub struct Reader { x: usize }
+pub uninterp spec fn rest(r: Reader) -> Seq<u8>;                    // the bytes not yet read
+pub uninterp spec fn src(r: Reader) -> FileV;
+// File::open + BufReader::new
+#[verifier::external_body] pub fn open_reader(f: &FileV) -> (r: Result<Reader, VErr>) ensures r is Err ==> io_error(*f), r is Ok ==> rest(r->Ok_0) == file_bytes(*f) && src(r->Ok_0) == *f { unimplemented!() }
+// std: "read all bytes into buf until the delimiter byte or EOF is reached ... all bytes up to, and including, the delimiter (if found) will be appended to buf ... returns the total number of bytes read"
+pub open spec fn first_record(s: Seq<u8>, d: u8) -> Seq<u8> decreases s.len() { if s.len() == 0 { Seq::empty() } else if s[0] == d { seq![d] } else { seq![s[0]] + first_record(s.skip(1), d) } }
+impl Reader {
+    #[verifier::external_body] pub fn read_until(&mut self, d: u8, buf: &mut Vec<u8>) -> (r: Result<usize, VErr>)
+        ensures src(*final(self)) == src(*old(self)), r is Err ==> io_error(src(*old(self))),
+            r is Ok ==> ({ let rec = first_record(rest(*old(self)), d); r->Ok_0 == rec.len() && final(buf)@ == old(buf)@ + rec && rest(*final(self)) == rest(*old(self)).skip(rec.len() as int) }) { unimplemented!() }
+}
+pub proof fn lemma_first_record(s: Seq<u8>, d: u8) ensures first_record(s, d).len() <= s.len(), s.len() > 0 ==> first_record(s, d).len() > 0 decreases s.len() { if s.len() > 0 && s[0] != d { lemma_first_record(s.skip(1), d); } }
+impl FnMap { #[verifier::external_body] pub fn new() -> (r: FnMap) ensures fmap(r) == Map::<Seq<u8>, FunctionV>::empty() { unimplemented!() } }
+pub uninterp spec fn utf8_name(b: Seq<u8>) -> Option<NameV>;
+#[verifier::external_body] pub fn string_from_utf8_f(v: Vec<u8>) -> (r: Result<NameV, VErr>) ensures r is Ok <==> utf8_name(v@) is Some, r is Ok ==> r->Ok_0 == utf8_name(v@)->Some_0 && name_bytes(r->Ok_0) == v@ { unimplemented!() }
+pub uninterp spec fn mk_fn(name: NameV, instrs: Seq<Instruction>) -> FunctionV;
+#[verifier::external_body] pub fn function_new_f(name: NameV, instructions: Vec<Instruction>) -> (r: FunctionV) ensures r == mk_fn(name, instructions@), fn_name(r) == name, fn_instrs(r) == instructions@ { unimplemented!() }
+
+// ---- the meaning of a bytecode file: its records, in order, each adding what it says
+pub struct Abs { pub in_function: bool, pub name: Option<NameV>, pub instrs: Seq<Instruction>, pub fns: Map<Seq<u8>, FunctionV> }
+pub open spec fn init_state() -> Abs { Abs { in_function: false, name: None, instrs: Seq::empty(), fns: Map::empty() } }
+pub open spec fn step(s: Abs, rec: Seq<u8>) -> Option<Abs> {
+    let payload = rec.subrange(2, rec.len() - 1);
+    if !s.in_function {                                              // `f name\0`
+        match utf8_name(payload) { None => None, Some(n) => Some(Abs { in_function: true, name: Some(n), ..s }) }
+    } else if rec[0] == 101 {                                        // `e\0`: the function is complete
+        Some(Abs { in_function: false, name: None, instrs: Seq::empty(), fns: s.fns.insert(name_bytes(s.name->Some_0), mk_fn(s.name->Some_0, s.instrs)) })
+    } else if rec.len() == 2 {                                       // `{id}\0`
+        Some(Abs { instrs: s.instrs.push(Instruction { id: rec[0], arguments: no_args() }), ..s })
+    } else {                                                         // `{id} args\0`
+        match split_spec(payload) { None => None, Some(a) => Some(Abs { instrs: s.instrs.push(Instruction { id: rec[0], arguments: a }), ..s }) }
+    }
+}
+pub open spec fn load(bytes: Seq<u8>, s: Abs) -> Option<Abs> decreases bytes.len() {
+    if bytes.len() == 0 { Some(s) } else {
+        let rec = first_record(bytes, 0);
+        if rec.len() == 0 || rec.len() > bytes.len() { None } else { match step(s, rec) { None => None, Some(s2) => load(bytes.skip(rec.len() as int), s2) } }
+    }
+}
+// every record is one the writer emits, in a place it emits it (a malformed record panics the loader: R8)
+pub open spec fn file_ok(bytes: Seq<u8>, in_function: bool) -> bool decreases bytes.len() {
+    if bytes.len() == 0 { true } else {
+        let rec = first_record(bytes, 0);
+        if rec.len() == 0 || rec.len() > bytes.len() { false } else { well_formed(rec, in_function) && file_ok(bytes.skip(rec.len() as int), if in_function { !is_end(rec) } else { true }) }
+    }
+}
+"""
+
+
+def build_loop(repo):
+    src = Source(repo)
+    log = []
+    f = src.fn(FILE, "get_functions")
+    body = list(f["body"])
+    try:
+        h, o, c = find_block_after(body, "while let Ok ( size ) = reader . read_until ( 0x00 , & mut buffer )")
+    except Exception as e:
+        raise Undecided(f"{FILE}: the record loop `while let Ok(size) = reader.read_until(0x00, &mut buffer)` of get_functions not found: {e}")
+    pre, inner, post = body[:h], body[o + 1:c], body[c + 1:]
+    inner = slice_match_to_if(inner, "buffer", log)
+    inner = [str(ord(t[2])) + "u8" if re.match(r"b'[^\\]'$", t) else t for t in inner]
+    ABS = "Abs { in_function, name: current_function_name, instrs: instruction_buffer@, fns: fmap(functions) }"
+    body_rules = [Rule("R9", "$b . is_ascii_whitespace ( )", "is_ascii_ws ( $b )", why="u8::is_ascii_whitespace")] + self_spec_all_any() + [
+        Rule("R9", "String :: from_utf8 ( name . to_vec ( ) ) ?", "string_from_utf8_f ( name ) ?", why="String::from_utf8: the same bytes, or an error"),
+        Rule("R9", "current_function_name . take ( ) . context ( $m ) ?", "take_name ( & mut current_function_name ) ?", why="Option::take + context"),
+        Rule("R6", "Function :: new ( Rc :: downgrade ( self ) , current_function_name . clone ( ) , instruction_buffer . into_boxed_slice ( ) , )",
+             "function_new_f ( clone_name ( & current_function_name ) , instruction_buffer )", why="Function::new: name and instruction list (the back reference to the file is dropped)"),
+        Rule("R6", "split_string ( String :: from_utf8_lossy ( args ) . as_ref ( ) ) ?", "split_args ( & args ) ?", why="argument splitter: own obligations (c04_codec)"),
+        Rule("R1", "Box :: new ( [ ] )", "args_none ( )", why="empty argument list"),
+        Rule("R1", "let pos = reader . stream_position ( ) ? ;", "", why="position only feeds the panic message"),
+        Rule("R8", "panic ! ( $$a )", "vpanic ( ) ; return Err ( VErr ) ;", why="panic! on a malformed record: excluded by the precondition (every record is one the writer emits)"),
+        Rule("R9", "functions . entry ( $k ) . or_insert ( $v ) ;", "functions . insert_if_absent ( $k , $v ) ;", why="HashMap::entry().or_insert(): keeps an existing entry"),
+    ]
+    bi = translate(inner, body_rules, log, "get_functions[loop body]")
+    frame_rules = [
+        Rule("R1", "let path = self . path ( ) ;", "", why="the path only names the file to open"),
+        Rule("R6", "BufReader :: new ( File :: open ( & * path ) . with_context ( $$c ) ? , )", "open_reader ( file ) ?", why="File::open + BufReader::new: a reader over the file's bytes (ghost), or an error"),
+        Rule("R9", "HashMap < String , Function >", "FnMap", why="HashMap<String, Function>: abstract map keyed by the bytes of the name"),
+        Rule("R9", "HashMap :: new ( )", "FnMap :: new ( )", why="empty map"),
+        Rule("R9", "Option < String >", "Option < NameV >", why="String -> NameV"),
+        Rule("R6", "Functions :: new ( $$m )", "$$m", why="Functions::new wraps the map"),
+    ]
+    bpre = translate(pre, frame_rules, log, "get_functions[prologue]")
+    bpost = translate(post, frame_rules, log, "get_functions[epilogue]")
+    log.append(("R13", "while let Ok(size) = reader.read_until(0x00, &mut buffer) { BODY }", "loop { let size = match reader.read_until(0x00, &mut buffer) { Ok(size) => size, Err(_) => { break; } }; BODY }", "while-let loop -> loop + match + break, with the loop invariant"))
+    for b in (bi, bpre, bpost):
+        check_closed(b, "get_functions")
+    gen = header(log, f"{FILE}: MScriptFile::get_functions (whole function, with its record loop)") + SPEC + LOOP_SPEC + f"""
+//@ OBL C04.loader.loop
+pub fn get_functions(file: &FileV) -> (r: Result<FnMap, VErr>)
+    requires
+        !io_error(*file),                                // assumption: the file opens and no read fails (`while let Ok(..)`: an I/O error ends loading silently)
+        file_ok(file_bytes(*file), false),               // R8
+    ensures
+        // the loaded functions are those the records of the file say, taken in order from the first byte to the last: nothing skipped, nothing read twice,
+        // loading fails exactly when a name is not UTF-8 or an argument list cannot be split
+        r is Ok <==> load(file_bytes(*file), init_state()) is Some,
+        r is Ok ==> fmap(r->Ok_0) =~= load(file_bytes(*file), init_state())->Some_0.fns,
+{{
+{render(bpre, 1)}
+    assert({ABS} =~= init_state());
+    loop
+        invariant
+            !io_error(*file), src(reader) == *file, buffer@.len() == 0, in_function ==> current_function_name is Some,
+            file_ok(rest(reader), in_function),
+            load(file_bytes(*file), init_state()) == load(rest(reader), {ABS}),
+        ensures rest(reader).len() == 0,
+        decreases rest(reader).len(),
+    {{
+        let ghost rest0 = rest(reader); let ghost abs0 = {ABS};
+        let size = match reader.read_until(0x00, &mut buffer) {{ Ok(size) => size, Err(_) => {{ break; }} }};
+        proof {{ lemma_first_record(rest0, 0); assert(buffer@ =~= first_record(rest0, 0)); if size == 0 {{ assert(rest(reader) =~= rest0); }} }}
+{render(bi, 2)}
+        proof {{ assert(step(abs0, first_record(rest0, 0)) is Some); assert({ABS} =~= step(abs0, first_record(rest0, 0))->Some_0); }}
+    }}
+{render(bpost, 1)}
+}}
+}} // verus!
+fn main() {{}}
+"""
+    return gen, [Obl("C04.loader.loop", ["C04", "C18"], fn="MScriptFile::get_functions", desc="get_functions, whole: the loaded functions are the fold of the record step over the records of the file from first byte to last; fails exactly on a non-UTF-8 name or unsplittable arguments")], log
+
+
 UNITS = [VUnit("c04_loader", ["C04", "C18"], "the file loader: what each record of a .mmm file becomes", build)]
+UNITS.append(VUnit("c04_loader_loop", ["C04", "C18"], "the file loader: the loop over the records of a .mmm file", build_loop))
+UNITS[1].assumes = ["std contracts assumed: File::open / BufReader (a reader over the file bytes), BufRead::read_until (doc), String::from_utf8, HashMap::new / insert", "precondition: no read of the file fails (an I/O error ends loading silently: not covered) and every record is one the writer emits in that place (a malformed record panics the loader)", "split_string, Function::new: abstract callees"]
 UNITS[0].assumes = ["fragment: the body of the record loop; the loop itself (`while let Ok(size) = reader.read_until(0, &mut buffer)`: one record per iteration, an I/O error ends the loop) and Functions::new are not under contract",
                     "precondition: every record is one the writer emits in that place (a malformed record panics the loader -- not covered)", "String::from_utf8, split_string (own obligations), HashMap::insert: assumed contracts"]
